@@ -132,6 +132,7 @@ PROPS = {
         "parts": {
             "seq": {"bin": "bastion", "run": "TestC10Seq", "checks": {"quick": 500, "thorough": 320000}, "shards": {"quick": 4, "thorough": 16}},
             "e2e": {"bin": "bastion", "run": "TestC10E2E", "checks": {"quick": 40, "thorough": 32000}, "shards": {"quick": 1, "thorough": 16}},
+            "bigsizes": {"bin": "bastion", "run": "TestC10BigSizes", "kind": "plain"},
             "rate": {"bin": "bastion", "run": "TestC10Rate", "checks": {"quick": 150, "thorough": 8000}, "shards": {"quick": 1, "thorough": 8}},
             "known": {"bin": "bastion", "run": "TestC10Known", "kind": "plain"},
         },
@@ -216,6 +217,7 @@ PROPS = {
             "three": {"bin": "verifh", "run": "TestC05Three", "kind": "plain", "shards": {"quick": 14, "thorough": 14}, "tiers": ["thorough"]},
             "sampled": {"bin": "verifh", "run": "TestC05Sampled", "checks": {"quick": 2000, "thorough": 320000}, "shards": {"quick": 4, "thorough": 16}},
             "stress": {"bin": "verifh", "run": "TestC05Stress", "kind": "plain", "race": True, "tiers": ["thorough"]},
+            "stress-lite": {"bin": "verifh", "run": "TestC05Stress", "kind": "plain", "tiers": ["quick"]},
         },
     },
     "C14": {
